@@ -24,6 +24,8 @@ POLICY = {   # function -> policy: 'lhs-const' (lhs constant decides) | 'self-co
     "instruction::bin_op::math::modulo::create_from_instructions": "self-const",
     "instruction::bin_op::shift::lshift::create_from_instructions": "self-const",
     "instruction::bin_op::shift::rshift::create_from_instructions": "self-const",
+    "instruction::at::create_from_instructions": "self-const",
+    "instruction::array_repeat::ArrayRepeat::create_from_instructions": "self-const",
 }
 
 
